@@ -126,8 +126,7 @@ def live():
             logt.append(dict(key=key, a=a, b=b, fn={"_convert_Ratio_B": "RB", "_convert_B_Ratio": "BR",
                                                      "_convert_Ratio_Np": "RN", "_convert_Np_Ratio": "NR"}.get(fn, fn),
                              k=PyFrac(repr(float(val[1]))), conv=PyFrac(repr(float(val[2])))))
-    methods = sorted(m[len("_convert_"):] for m in dir(T.LogarithmicUnitType) if m.startswith("_convert_")
-                     and m[len("_convert_"):] not in ("B_B", "Ratio_B", "B_Ratio", "Ratio_Np", "Np_Ratio"))
+    methods = sorted(m[len("_convert_"):] for m in dir(T.LogarithmicUnitType) if m.startswith("_convert_"))
     tmethods = sorted(m[len("_convert_"):] for m in dir(T.TemperatureUnitType) if m.startswith("_convert_"))
     return dict(prefixes=prefixes, units=units, sys=sysu, logtable=logt, logmethods=methods,
                 tempmethods=tmethods, logprocess=list(T.LogarithmicUnitType.process),
